@@ -862,7 +862,7 @@ func groupGraphs(g, m int) {
 			ms = append(ms, newStruct("graph"))
 		}
 		bad := map[int]bool{}
-		nbad := rng.Intn(3)
+		nbad := 1 + rng.Intn(2)
 		if gi == 0 {
 			nbad = 0
 		}
@@ -872,9 +872,9 @@ func groupGraphs(g, m int) {
 		edges := make([][]int, m)
 		for i, st := range ms {
 			st.add("V", prim("int32"), 1, "default")
-			ne := rng.Intn(4)
-			if i == m-1 && ne == 0 {
-				ne = 2
+			ne := 1 + rng.Intn(3)
+			if bad[i] {
+				ne = rng.Intn(2) // invalid members are mostly leaves: more members stay valid
 			}
 			for e := 0; e < ne; e++ {
 				j := rng.Intn(m)
